@@ -237,6 +237,7 @@ def stepD (st : DSt) (fs : List String) : DSt × String :=
   -- request that the unwrap executes): the first unwrap spends it, every later attempt and lookup finds nothing
   -- (`C18.unwrap_at_most_once` over the use-count model with n = 1)
   | ["cgunwrap"] => (st, "approve:ok|first:ok:v1|second:err|third:err|lookup:err|value:kept")
+  | ["xns", _dir] => (st, "first:ok+payload/second:refused/token:gone/payload:0/wrapinfo:0")
   | ["cgstanza"] => (st, "first:data|second:err")
   | ["hist", path, ttl] =>
     -- a response wrapped for a request on `path`: what the requester's wrap_info says
